@@ -206,6 +206,8 @@ for line in sys.stdin:
     pid = os.fork()
     if pid == 0:
         try:
+            signal.signal(signal.SIGXFSZ, signal.SIG_DFL)      # CPython ignores it by default
+            resource.setrlimit(resource.RLIMIT_CORE, (0, 0))
             resource.setrlimit(resource.RLIMIT_FSIZE, (k, resource.getrlimit(resource.RLIMIT_FSIZE)[1]))
             CCT(n)
         except BaseException:
@@ -488,6 +490,7 @@ class World:
         self.procs = []
         self.trace = []
         self.killed = set()
+        self.leftover = None      # (size, False): the rejected content the scenario started with
 
     # -- hooks (installed process-wide while the world is active; inert for other threads)
     def cur(self):
@@ -612,7 +615,7 @@ class World:
     def oracle(self, rp):
         """the property, after every operation"""
         final, temps, pcs = self.observe()
-        if not final_ok(final):
+        if not final_ok(final) and final != self.leftover:
             self.ctx.oracle_fail("schedule:partial-file-under-cached-name",
                                  "the cached name holds %d bytes that are not a complete serialisation" % final[0],
                                  dict(rp, trace=[list(a) for a in self.trace]))
@@ -649,6 +652,7 @@ def run_schedule(ctx, sb, n, plan, jobs, kind, g0=None):
     if g0 is not None:
         with open(w.fin, "wb") as f:
             f.write(ser[:g0])
+        w.leftover = (g0, g0 == len(ser))
     rp = {"n": n, "file_size": len(ser), "leftover_bytes": g0, "kind": kind}
     w.install()
     ok = True
